@@ -17,11 +17,11 @@ let rec wv_of = function
   | S.A "null" -> WNull
   | S.L [S.A "b"; x] -> WBool (S.int x <> 0)
   | S.L [S.A "num"; _; t] -> WNum (bytes_of_hex t)
-  | S.L (S.A "str" :: rs) -> WStr (wrunes rs)
-  | S.L (S.A "sym" :: rs) -> WSym (wrunes rs)
-  | S.L (S.A "var" :: rs) -> WVar (wrunes rs)
+  | S.L (S.A "str" :: _ :: rs) -> WStr (wrunes rs)
+  | S.L (S.A "sym" :: _ :: rs) -> WSym (wrunes rs)
+  | S.L (S.A "var" :: _ :: rs) -> WVar (wrunes rs)
   | S.L (S.A "l" :: xs) -> WList (List.map wv_of xs)
-  | S.L (S.A "m" :: kvs) -> WMap (List.map (function S.L [S.L (S.A "k" :: rs); v] -> (wrunes rs, wv_of v) | _ -> failwith "text: map") kvs)
+  | S.L (S.A "m" :: kvs) -> WMap (List.map (function S.L [S.L (S.A "k" :: _ :: rs); v] -> (wrunes rs, wv_of v) | _ -> failwith "text: map") kvs)
   | S.L [S.A "other"; t] -> WOther (List.map (fun b -> { wr_rune = b; wr_utf8 = [b] }) (bytes_of_hex t))
   | x -> failwith ("text: wv " ^ S.to_string x)
 
